@@ -546,18 +546,22 @@ fn transparency_case(l: &mut Local, img: &[u8], n: u8, name: &str, type_name: &s
                         // ... and a padded packet followed by another packet (legal on the wire): both come out
                         l.transitions += 1;
                         let follow = guard::catch(|| -> Result<(), String> {
-                            let mut two = padded.to_vec();
-                            two.extend_from_slice(&[0x81, 203, 0, 1, 0xAB, 0xCD, 0xEF, 0x01]);
-                            let two = crate::engine::place::place(&mut two, (n as usize / 4 + padded.len()) % 8);
-                            let c = Compound::parse(two).map_err(|e| format!("Compound::parse = {:?}", e))?;
-                            let items: Vec<_> = c.take(4).collect();
-                            if items.len() != 2 || items.iter().any(|r| r.is_err()) {
-                                return Err(format!("padded packet + BYE iterates as {:?}", items.iter().map(|r| r.as_ref().map(|_| "packet").map_err(|e| format!("{:?}", e))).collect::<Vec<_>>()));
-                            }
-                            let mut o2 = observe::obs_packet(items[0].as_ref().unwrap(), padded.len()).map_err(|e| format!("{:?}", e))?;
-                            o2.set_pad(0);
-                            if o2 != plain {
-                                return Err(format!("followed by another packet the content reads {}", o2.short()));
+                            // three followers: the datagram ends in 0x01, in 0x00 and in 0xFF (the last octet of the
+                            // datagram is not the padding count of a member that is not last)
+                            for last in [0x01u8, 0x00, 0xFF] {
+                                let mut two = padded.to_vec();
+                                two.extend_from_slice(&[0x81, 203, 0, 1, 0xAB, 0xCD, 0xEF, last]);
+                                let two = crate::engine::place::place(&mut two, (n as usize / 4 + padded.len()) % 8);
+                                let c = Compound::parse(two).map_err(|e| format!("Compound::parse = {:?} (follower ending in {:02x})", e, last))?;
+                                let items: Vec<_> = c.take(4).collect();
+                                if items.len() != 2 || items.iter().any(|r| r.is_err()) {
+                                    return Err(format!("padded packet + BYE ending in {:02x} iterates as {:?}", last, items.iter().map(|r| r.as_ref().map(|_| "packet").map_err(|e| format!("{:?}", e))).collect::<Vec<_>>()));
+                                }
+                                let mut o2 = observe::obs_packet(items[0].as_ref().unwrap(), padded.len()).map_err(|e| format!("{:?}", e))?;
+                                o2.set_pad(0);
+                                if o2 != plain {
+                                    return Err(format!("followed by another packet the content reads {}", o2.short()));
+                                }
                             }
                             Ok(())
                         });
